@@ -12,6 +12,7 @@
 # You should have received a copy of the GNU Lesser General Public
 # License along with this library.  If not, see <http://www.gnu.org/licenses/>.
 
+import re
 import token
 import ast
 import warnings
@@ -99,8 +100,8 @@ class ModuleSource:
 
 
 def _split_lines(source: str):
-    """Split at newlines only. str.splitlines also splits at form feeds etc."""
-    lines = source.split("\n")
+    """Split at line ends only. str.splitlines also splits at form feeds etc."""
+    lines = re.split("\r\n|\r|\n", source)
     if lines and lines[-1] == "":
         lines.pop()
     return lines
